@@ -11,6 +11,13 @@ namespace Model
 @[simp] theorem require_ok (c : Bool) (msg : String) (u : Unit) : require c msg = .ok u ↔ c = true := by
   cases c <;> simp [require]
 
+@[simp] theorem requireRange_bind_ok {α : Type} (c : Bool) (f : Unit → Except Err α) (a : α) :
+    ((requireRange c) >>= f) = .ok a ↔ (c = true ∧ f () = .ok a) := by
+  cases c <;> simp [requireRange, bind, Except.bind]
+
+@[simp] theorem requireRange_ok (c : Bool) (u : Unit) : requireRange c = .ok u ↔ c = true := by
+  cases c <;> simp [requireRange]
+
 theorem bind_ok_iff {α β : Type} (x : Except Err α) (f : α → Except Err β) (b : β) :
     (x >>= f) = .ok b ↔ ∃ a, x = .ok a ∧ f a = .ok b := by
   cases x <;> simp [bind, Except.bind]
